@@ -409,9 +409,16 @@ func (zp *ZoneParser) Next() (RR, bool) {
 			}
 
 			neworigin := zp.origin // There may be optionally a new origin set after the filename, if not use current one
-			switch l, _ := zp.c.Next(); l.value {
+			l1, _ := zp.c.Next()
+			if l1.err {
+				return zp.setParseError(l1.token, l1)
+			}
+			switch l1.value {
 			case zBlank:
 				l, _ := zp.c.Next()
+				if l.err {
+					return zp.setParseError(l.token, l)
+				}
 				if l.value == zString {
 					name, ok := toAbsoluteName(l.token, zp.origin)
 					if !ok {
@@ -423,7 +430,7 @@ func (zp *ZoneParser) Next() (RR, bool) {
 			case zNewline, zEOF:
 				// Ok
 			default:
-				return zp.setParseError("garbage after $INCLUDE", l)
+				return zp.setParseError("garbage after $INCLUDE", l1)
 			}
 
 			if !zp.includeAllowed {
